@@ -35,6 +35,7 @@ type G struct {
 	name    string
 	started bool
 	stack   []string // this goroutine's interpreted call stack (diagnostics)
+	parked  bool     // voluntarily yielded (runOthers): resumed when nothing else can run
 }
 
 type abortG struct{}
@@ -221,6 +222,11 @@ func (s *Sched) pickNext(cur *G) *G {
 				k = s.in.e.Choice(len(rs), "sched")
 			}
 			return rs[k]
+		}
+		for _, g := range s.gs {
+			if g.parked && g.state != gDone {
+				return g
+			}
 		}
 		if s.fireNextTimer() {
 			continue
@@ -596,8 +602,40 @@ func (s *Sched) advance(d int64) {
 			clk.elapsed = best.at + timerLatency
 		}
 		s.fire(best)
+		s.runOthers() // goroutines woken by this timer run before more time passes
 	}
 	if target > clk.elapsed {
 		clk.elapsed = target
 	}
+}
+
+// runOthers lets every other runnable goroutine run until it blocks or ends
+// (the caller stays runnable and continues afterwards).
+func (s *Sched) runOthers() {
+	cur := s.cur
+	for i := 0; i < 10000; i++ {
+		var next *G
+		for _, g := range s.runnable() {
+			if g != cur {
+				next = g
+				break
+			}
+		}
+		if next == nil {
+			return
+		}
+		cur.state = gBlocked
+		cur.ready = func() bool { return false }
+		cur.why = "yielding"
+		s.yieldTo(cur, next)
+		cur.state = gRunnable
+		cur.ready = nil
+	}
+}
+
+// yieldTo transfers to next; cur is resumed when no other goroutine can run.
+func (s *Sched) yieldTo(cur, next *G) {
+	cur.parked = true
+	s.transfer(next)
+	cur.parked = false
 }
